@@ -417,6 +417,122 @@ mod lms {
     lms_harnesses!(shake_m32, crrl::lms::LMS_SHAKE_M32_H5_SHAKE_N32_W8, 32, 32);
 }
 
+mod zz {
+    //! Zu128 / Zu256 / Zu384 helper integers (src/backend/w64/zz.rs): every
+    //! function is loop-free or constant-bound; inputs are fully symbolic.
+    use super::refn as R;
+    use crrl::{Zu128, Zu256, Zu384};
+    fn any128() -> (Zu128, [u64; 2]) { let l: [u64; 2] = kani::any(); (Zu128::w64le(l[0], l[1]), l) }
+    fn any256() -> (Zu256, [u64; 4]) { let l: [u64; 4] = kani::any(); (Zu256::w64le(l[0], l[1], l[2], l[3]), l) }
+    fn any384() -> (Zu384, [u64; 6]) { let l: [u64; 6] = kani::any(); (Zu384::w64le(l[0], l[1], l[2], l[3], l[4], l[5]), l) }
+    /// schoolbook product from the same 64x64 partial products, accumulated column-wise in u128
+    fn ref_mul<const NA: usize, const NB: usize, const NR: usize>(a: [u64; NA], b: [u64; NB]) -> [u64; NR] {
+        let mut r = [0u64; NR];
+        let mut i = 0;
+        while i < NA {
+            let mut carry = 0u128;
+            let mut j = 0;
+            while j < NB {
+                if i + j < NR {
+                    let t = (a[i] as u128) * (b[j] as u128) + (r[i + j] as u128) + carry;
+                    r[i + j] = t as u64;
+                    carry = t >> 64;
+                }
+                j += 1;
+            }
+            if i + NB < NR { r[i + NB] = carry as u64; }
+            i += 1;
+        }
+        r
+    }
+    #[kani::proof]
+    #[kani::stub(crrl::backend::w64::addcarry_u64, super::portable_addcarry_u64)]
+    #[kani::stub(crrl::backend::w64::subborrow_u64, super::portable_subborrow_u64)]
+    #[kani::unwind(8)]
+    fn k_mul128x128() {
+        let (a, la) = any128(); let (b, lb) = any128();
+        let r = a.mul128x128(&b).verif_limbs();
+        let w: [u64; 4] = ref_mul::<2, 2, 4>(la, lb);
+        assert!(R::eq(r, w));
+        let t = a.mul128x128trunc(&b).verif_limbs();
+        assert!(t[0] == w[0] && t[1] == w[1]);
+    }
+    #[kani::proof]
+    #[kani::stub(crrl::backend::w64::addcarry_u64, super::portable_addcarry_u64)]
+    #[kani::stub(crrl::backend::w64::subborrow_u64, super::portable_subborrow_u64)]
+    #[kani::unwind(8)]
+    fn k_mul256x128() {
+        let (a, la) = any256(); let (b, lb) = any128();
+        let r = a.mul256x128(&b).verif_limbs();
+        let w: [u64; 6] = ref_mul::<4, 2, 6>(la, lb);
+        assert!(R::eq(r, w));
+    }
+    #[kani::proof]
+    #[kani::stub(crrl::backend::w64::addcarry_u64, super::portable_addcarry_u64)]
+    #[kani::stub(crrl::backend::w64::subborrow_u64, super::portable_subborrow_u64)]
+    #[kani::unwind(8)]
+    fn k_zz_linear() {
+        // abs / double_inc_abs / set_sub / set_sub_u32 / trunc128
+        let (a, la) = any128(); let (b, lb) = any128();
+        let x = ((la[1] as u128) << 64) | la[0] as u128;
+        let y = ((lb[1] as u128) << 64) | lb[0] as u128;
+        let (m, s) = a.abs();
+        let neg = (x >> 127) != 0;
+        assert!(s == if neg { 0xFFFFFFFFu32 } else { 0 });
+        assert!(m == if neg { x.wrapping_neg() } else { x });
+        let (m2, s2) = a.double_inc_abs();
+        let d = x.wrapping_shl(1) | 1;   // 2x+1 mod 2^128; sign taken from x
+        assert!(s2 == if neg { 0xFFFFFFFFu32 } else { 0 });
+        assert!(m2 == if neg { d.wrapping_neg() } else { d });
+        let mut c = a; c.set_sub(&b);
+        let lc = c.verif_limbs();
+        assert!((((lc[1] as u128) << 64) | lc[0] as u128) == x.wrapping_sub(y));
+        let k: u32 = kani::any();
+        let mut e = a; e.set_sub_u32(k);
+        let le = e.verif_limbs();
+        assert!((((le[1] as u128) << 64) | le[0] as u128) == x.wrapping_sub(k as u128));
+        let (z, lz) = any256();
+        let t = z.trunc128().verif_limbs();
+        assert!(t[0] == lz[0] && t[1] == lz[1]);
+    }
+    #[kani::proof]
+    #[kani::stub(crrl::backend::w64::addcarry_u64, super::portable_addcarry_u64)]
+    #[kani::stub(crrl::backend::w64::subborrow_u64, super::portable_subborrow_u64)]
+    #[kani::unwind(8)]
+    fn k_zz256() {
+        // add_rsh224 / borrow
+        let (a, la) = any256(); let (b, lb) = any256();
+        let sum: [u64; 4] = R::add(la, lb);   // truncated to 256 bits
+        assert!(a.add_rsh224(&b) == (sum[3] >> 32) as u32);
+        assert!(a.borrow(&b) == if R::ge(la, lb) { 0 } else { 1 });
+    }
+    #[kani::proof]
+    #[kani::stub(crrl::backend::w64::addcarry_u64, super::portable_addcarry_u64)]
+    #[kani::stub(crrl::backend::w64::subborrow_u64, super::portable_subborrow_u64)]
+    #[kani::unwind(8)]
+    fn k_zz384() {
+        // Zu384::set_add / trunc_and_rsh_cc for every documented shift count
+        let (a, la) = any384(); let (b, lb) = any384();
+        let mut c = a; c.set_add(&b);
+        assert!(R::eq(c.verif_limbs(), R::add(la, lb)));
+        let n: u32 = kani::any();
+        kani::assume(n >= 225 && n <= 255);
+        let bb: u32 = kani::any();
+        let mut x = a;
+        let (lo, hi) = x.trunc_and_rsh_cc(bb, n);
+        // lo == a mod 2^n
+        let l = lo.verif_limbs();
+        let sh = n - 192;
+        assert!(l[0] == la[0] && l[1] == la[1] && l[2] == la[2] && l[3] == (la[3] & ((1u64 << sh) - 1)));
+        // hi == (floor(a / 2^n) + bb) mod 2^128, computed on u128 halves
+        let q_lo = ((la[3] as u128) | ((la[4] as u128) << 64)) >> sh;          // bits n .. n+127-? of a (low part)
+        let q = (q_lo & (u128::MAX >> sh)) | (((la[5] as u128) << (128 - sh)) & !(u128::MAX >> sh)) | (((la[4] as u128) << 64 >> sh) & 0);
+        let q = ((((la[4] as u128) | ((la[5] as u128) << 64)) << (64 - sh)) & !((1u128 << 64) - 1) & u128::MAX) | ((((la[3] as u128) | ((la[4] as u128) << 64)) >> sh) & ((1u128 << 64) - 1)) | 0 * q;
+        let h = hi.verif_limbs();
+        assert!((((h[1] as u128) << 64) | h[0] as u128) == q.wrapping_add(bb as u128));
+    }
+}
+
 #[kani::proof]
 fn k_smoke_true() { let x: u8 = kani::any(); assert!(x as u32 + 1 > 0); }
 /// vacuity guard: this harness MUST fail; the runner checks that it does.
